@@ -137,6 +137,9 @@ def replay_snapshot(obligation=None, model=None, meta=None):
                             'native_cmd': 'save_ss(buffer, system); load_ss(buffer)'}
         # the stored series and its bookkeeping (what has been written to the output file so far) travel with the snapshot
         for who, obj in (('the loaded system', s2), ('the saved system', ss)):
+            if getattr(obj.dae, 'ts', None) is None or not hasattr(obj.dae.ts, 't') or not hasattr(obj.dae.ts, 'xy'):
+                return {'confirmed': True, 'inputs': where, 'observed': '%s has no stored series after save_ss / load_ss (dae.ts is %r)' % (who, getattr(obj.dae, 'ts', None)),
+                        'native_cmd': 'save_ss(buffer, system); load_ss(buffer)'}
             for label, a_, b_ in (('time stamps of the stored series', series['t'], np.array(obj.dae.ts.t)), ('stored series', series['xy'], np.array(obj.dae.ts.xy))):
                 if a_.shape != b_.shape or not np.array_equal(a_, b_):
                     return {'confirmed': True, 'inputs': where, 'observed': '%s of %s differ after save_ss / load_ss' % (label, who), 'native_cmd': 'save_ss(buffer, system); load_ss(buffer)'}
